@@ -90,6 +90,9 @@ class Client:
         self.error = None
         self.cons = []
         self.thread = None
+        self.obs_mark = self.obs.copy()
+        self.nobs_mark = 0
+        self.wake_at = None
 
     def observe(self, *what):
         self.obs.update(repr(what).encode())
@@ -97,7 +100,8 @@ class Client:
 
     def local_key(self):
         return (self.pc, self.nobs, self.obs.hexdigest()[:16], self.state,
-                self.blocked, self.sleeping, tuple(self.call_vecs))
+                self.blocked, self.sleeping, tuple(self.call_vecs),
+                self.wake_at)
 
 
 class Execution:
@@ -142,6 +146,12 @@ class Execution:
     def closing(self, con):
         self.write_cons.discard(id(con))
         self._wake()
+
+    def _unsleep(self):
+        if getattr(self.sc, 'timed_sleep', False):
+            return
+        for other in self.clients:
+            other.sleeping = False
 
     def _wake(self):
         for c in self.clients:
@@ -201,6 +211,7 @@ class Execution:
             elif not con.in_transaction and v not in ('SELECT', 'PRAGMA'):
                 self._wake()
             c.observe('sql', v, rows._rows)
+            self._unsleep()
             return rows
 
     def before(self, kind, info):
@@ -214,17 +225,24 @@ class Execution:
         if c is None:
             return
         c.observe(kind, info, None if exc is None else type(exc).__name__)
-        for other in self.clients:
-            other.sleeping = False
+        self._unsleep()
 
     def sleep(self, seconds):
         c = self.me()
         if c is None:
             return
+        # A spin loop carries no local state across iterations (assumption,
+        # see DESIGN): collapse the observation log to the operation start so
+        # that the visited-state cache closes the loop.
+        c.obs = c.obs_mark.copy()
+        c.nobs = c.nobs_mark
         c.sleeping = True
+        if getattr(self.sc, 'timed_sleep', False):
+            c.wake_at = ENV.now + seconds
         c.observe('sleep')
         self.point(c, ('sleep', seconds))
         c.sleeping = False
+        c.wake_at = None
 
     # -- client thread body --------------------------------------------------
     def body(self, c):
@@ -237,6 +255,8 @@ class Execution:
             for i, op in enumerate(c.program):
                 c.pc = i
                 c.call_step = None
+                c.obs_mark = c.obs.copy()
+                c.nobs_mark = c.nobs
                 result = self.sc.perform(self, c, op)
                 c.results.append((op, result, c.call_step
                                   if c.call_step is not None else self.step,
@@ -260,17 +280,31 @@ class Execution:
         shared = self.sc.shared_key(self)
         locals_ = tuple(c.local_key() for c in self.clients)
         key = (shared, locals_, tuple(sorted(
-            self.con_owner.get(i, 0) for i in self.write_cons)))
+            self.con_owner.get(i, 0) for i in self.write_cons)), ENV.now)
         if self.bound is not None:
             key += (self.bound - self.preemptions, self.last)
         return hashlib.sha1(repr(key).encode()).digest()
 
     def enabled(self):
         parked = [c for c in self.clients if c.state in ('parked', 'new')]
+        timed = getattr(self.sc, 'timed_sleep', False)
+        if timed:
+            for c in parked:
+                if c.sleeping and c.wake_at is not None \
+                        and c.wake_at <= ENV.now + 1e-12:
+                    c.sleeping = False
         ready = [c for c in parked if not c.blocked and not c.sleeping]
         if ready:
             return ready
         sleepers = [c for c in parked if c.sleeping and not c.blocked]
+        if timed and sleepers:
+            # every unfinished client sleeps: virtual time jumps to the
+            # earliest wake-up
+            ENV.now = min(c.wake_at for c in sleepers)
+            woke = [c for c in sleepers if c.wake_at <= ENV.now + 1e-12]
+            for c in woke:
+                c.sleeping = False
+            return woke
         return sleepers
 
     def run(self):
